@@ -24,7 +24,8 @@ OPS = ["==", "!=", "<", "<=", ">", ">=", "in", "not in"]
 OTHERS = {
     "int": "1", "float": "1.5", "str": "'a'", "bytes": "b'a'", "none": "None", "bool": "True", "list": "[1, 'a']", "tuple": "(1,)",
     "emptylist": "[]", "f-int": "r.n", "f-str": "r.s", "f-float": "r.f", "f-bool": "r.b", "f-list": "r.l", "f-path": "r.p", "f-ip": "r.ip",
-    "f-uri": "r.u", "cons": "net.ipnetwork('10.0.0.0/8')", "type": "Type.string", "f-none": "r.none", "f-bytes": "r.raw", "str-empty": "''",
+    "f-uri": "r.u", "cons": "net.ipnetwork('10.0.0.0/8')", "cons-legacy-subnet": "net.ipv4.Subnet('10.0.0.0/8')", "cons-legacy-addr": "net.ipv4.Address('10.1.2.3')",
+    "cons-ip": "net.ipaddress('10.1.2.3')", "cons-ip6net": "net.ipnetwork('::/0')", "type": "Type.string", "f-none": "r.none", "f-bytes": "r.raw", "str-empty": "''",
 }
 CONTEXTS = {
     "bare": "%s", "and-r": "(%s) and True", "and-l": "True and (%s)", "or-r": "(%s) or False", "or-l": "False or (%s)", "not": "not (%s)",
